@@ -4,7 +4,7 @@ from __future__ import annotations
 import json
 import os
 
-DIR = os.path.join(os.path.dirname(os.path.dirname(os.path.abspath(__file__))), "evidence")
+DIR = os.environ.get("VERIF_EVIDENCE_DIR") or os.path.join(os.path.dirname(os.path.dirname(os.path.abspath(__file__))), "evidence")
 
 
 def _jsonable(x):
